@@ -19,6 +19,22 @@ namespace Vita.C02
 /-- `gene::packed_index_t` is `std::uint16_t`: argument indices are stored modulo 2^16. -/
 def PACK : Nat := 65536
 
+/-- The part of `environment` the MEP operators read.  A `problem` (hence its environment) is a
+    long-lived, mutable object that every operator receives as a PARAMETER: the environment an
+    operator is given need not be the one its operand was created under. -/
+structure MepEnv where
+  codeLength : Nat          -- env.mep.code_length
+  patchLength : Nat         -- env.mep.patch_length
+  teamSize : Nat := 1       -- env.team.individuals
+deriving Repr, Inhabited
+
+/-- what `environment::is_valid` guarantees about these fields (after fix b7362fc) and what
+    `i_mep(problem)` / `team(problem)` expect -/
+structure MepEnv.Valid (e : MepEnv) : Prop where
+  patch_lt : e.patchLength < e.codeLength
+  len_le : e.codeLength ≤ PACK
+  team_pos : 0 < e.teamSize
+
 structure Sym where
   opcode : Nat
   cat : Nat
@@ -179,8 +195,10 @@ def GDrawOK (ss : SymSet) (c lo sup : Nat) (d : GDraw) : Prop :=
 /-- contract of the draws used for a terminal gene of category `c` -/
 def TDrawOK (ss : SymSet) (c : Nat) (d : GDraw) : Prop := d.slotT < wsum (ss.terminals c)
 
-/-- the gene the constructor / mutation put at row `i`, column `c`
-    (`patch = rows - patch_length`) -/
+/-- the gene the constructor / mutation put at row `i`, column `c` of a genome of `rows` rows when
+    the patch length is `pl`: the patch section are the last `pl` rows – ALL rows when `pl ≥ rows`
+    (natural-number subtraction; `i_mep::mutation` treats an individual no longer than the patch
+    length of the environment it is given that way since fix 6e548ec) -/
 def drawGene (ss : SymSet) (rows pl i c : Nat) (d : GDraw) : Gene :=
   if i < rows - pl then geneOfSym (ss.roulette c d) d else geneOfTerminal (ss.rouletteT c d) d
 
@@ -189,9 +207,10 @@ def DrawOK (ss : SymSet) (rows pl i c : Nat) (d : GDraw) : Prop :=
 
 /-! ## Operators as functions of explicit draws -/
 
-/-- `i_mep::i_mep(const problem &)` -/
-def randomInd (ss : SymSet) (rows pl xo : Nat) (d : Nat → Nat → GDraw) : Ind :=
-  { rows := rows, cols := ss.cats, gene := fun i c => drawGene ss rows pl i c (d i c),
+/-- `i_mep::i_mep(const problem &)`: the genome has `env.mep.code_length` rows -/
+def randomInd (ss : SymSet) (env : MepEnv) (xo : Nat) (d : Nat → Nat → GDraw) : Ind :=
+  { rows := env.codeLength, cols := ss.cats,
+    gene := fun i c => drawGene ss env.codeLength env.patchLength i c (d i c),
     best := ⟨0, 0⟩, age := 0, xover := xo }
 
 structure MState where
@@ -202,25 +221,27 @@ structure MState where
 /-- one step of `for (auto i(begin()); i != end(); ++i) if (random::boolean(pgm)) …`
     at locus (i, c); `eqv` is `operator==` of genes (symbol, arguments, almost_equal on the
     parameter) and is left abstract -/
-def mutCell (ss : SymSet) (pl : Nat) (eqv : Gene → Gene → Bool) (bern : Nat → Nat → Bool)
+def mutCell (ss : SymSet) (env : MepEnv) (eqv : Gene → Gene → Bool) (bern : Nat → Nat → Bool)
     (d : Nat → Nat → GDraw) (i c : Nat) (s : MState) : MState :=
   if Locus.mk i c ∈ s.act then
     let s1 : MState :=
       if bern i c then
-        let g := drawGene ss s.x.rows pl i c (d i c)
+        let g := drawGene ss s.x.rows env.patchLength i c (d i c)
         if eqv (s.x.gene i c) g then s else { s with x := setGene s.x i c g, n := s.n + 1 }
       else s
     { s1 with act := s1.act ++ (s1.x.gene i c).argLoci }
   else s
 
-def mutRow (ss : SymSet) (pl : Nat) (eqv : Gene → Gene → Bool) (bern : Nat → Nat → Bool)
+def mutRow (ss : SymSet) (env : MepEnv) (eqv : Gene → Gene → Bool) (bern : Nat → Nat → Bool)
     (d : Nat → Nat → GDraw) (cols : Nat) (s : MState) (i : Nat) : MState :=
-  (List.range cols).foldl (fun s c => mutCell ss pl eqv bern d i c s) s
+  (List.range cols).foldl (fun s c => mutCell ss env eqv bern d i c s) s
 
-/-- `i_mep::mutation(pgm, prb)`: returns the mutated individual and the number of mutations -/
-def mutation (ss : SymSet) (pl : Nat) (eqv : Gene → Gene → Bool) (bern : Nat → Nat → Bool)
+/-- `i_mep::mutation(pgm, prb)`: returns the mutated individual and the number of mutations.
+    The geometry is the INDIVIDUAL's (`x.rows` = `size()`, `x.cols` = `categories()`); of the
+    environment `env` of `prb` only `patch_length` is read – `env.codeLength` is not. -/
+def mutation (ss : SymSet) (env : MepEnv) (eqv : Gene → Gene → Bool) (bern : Nat → Nat → Bool)
     (d : Nat → Nat → GDraw) (x : Ind) : Ind × Nat :=
-  let s := (List.range x.rows).foldl (mutRow ss pl eqv bern d x.cols) ⟨x, [x.best], 0⟩
+  let s := (List.range x.rows).foldl (mutRow ss env eqv bern d x.cols) ⟨x, [x.best], 0⟩
   (s.x, s.n)
 
 /-- the draws of `crossover(lhs, rhs)` -/
@@ -309,21 +330,25 @@ def FreshGeneOK (ss : SymSet) (rows cols pl i c : Nat) (g : Gene) : Prop :=
 instance (ss rows cols pl i c g) : Decidable (FreshGeneOK ss rows cols pl i c g) := by
   unfold FreshGeneOK; infer_instance
 
-def RandomStep (ss : SymSet) (rows pl : Nat) (post : Ind) : Prop :=
-  post.rows = rows ∧ post.cols = ss.cats ∧ post.best = ⟨0, 0⟩ ∧ post.age = 0 ∧ post.xover < 4 ∧
-  ∀ i, i < rows → ∀ c, c < ss.cats → FreshGeneOK ss rows ss.cats pl i c (post.gene i c)
+def RandomStep (ss : SymSet) (env : MepEnv) (post : Ind) : Prop :=
+  post.rows = env.codeLength ∧ post.cols = ss.cats ∧ post.best = ⟨0, 0⟩ ∧ post.age = 0 ∧
+  post.xover < 4 ∧
+  ∀ i, i < env.codeLength → ∀ c, c < ss.cats →
+    FreshGeneOK ss env.codeLength ss.cats env.patchLength i c (post.gene i c)
 
-instance (ss rows pl post) : Decidable (RandomStep ss rows pl post) := by
+instance (ss env post) : Decidable (RandomStep ss env post) := by
   unfold RandomStep; infer_instance
 
-/-- mutation: everything but some genes is unchanged; a changed gene is a fresh gene for
-    its locus -/
-def MutStep (ss : SymSet) (pl : Nat) (pre post : Ind) : Prop :=
+/-- mutation under the environment `env`: everything but some genes is unchanged; a changed gene
+    is a fresh gene for its locus IN THE OPERAND's geometry (`pre.rows`, `pre.cols`), the patch
+    section being the last `env.patchLength` rows of the operand; `env.codeLength` plays no part -/
+def MutStep (ss : SymSet) (env : MepEnv) (pre post : Ind) : Prop :=
   SameShape pre post ∧ post.best = pre.best ∧ post.age = pre.age ∧ post.xover = pre.xover ∧
   ∀ i, i < pre.rows → ∀ c, c < pre.cols →
-    post.gene i c = pre.gene i c ∨ FreshGeneOK ss pre.rows pre.cols pl i c (post.gene i c)
+    post.gene i c = pre.gene i c ∨
+      FreshGeneOK ss pre.rows pre.cols env.patchLength i c (post.gene i c)
 
-instance (ss pl pre post) : Decidable (MutStep ss pl pre post) := by
+instance (ss env pre post) : Decidable (MutStep ss env pre post) := by
   unfold MutStep SameShape; infer_instance
 
 def changedLoci (pre post : Ind) : List Locus :=
@@ -332,18 +357,18 @@ def changedLoci (pre post : Ind) : List Locus :=
 
 /-- the stronger relation the driver decides for mutation: moreover only active loci of the
     result changed ("mutation affects only exons") and the returned count is their number -/
-def MutStepStrong (ss : SymSet) (pl : Nat) (pre post : Ind) (n : Nat) : Prop :=
-  MutStep ss pl pre post ∧ (∀ l ∈ changedLoci pre post, l ∈ exons post) ∧
+def MutStepStrong (ss : SymSet) (env : MepEnv) (pre post : Ind) (n : Nat) : Prop :=
+  MutStep ss env pre post ∧ (∀ l ∈ changedLoci pre post, l ∈ exons post) ∧
   (changedLoci pre post).length = n
 
-instance (ss pl pre post n) : Decidable (MutStepStrong ss pl pre post n) := by
+instance (ss env pre post n) : Decidable (MutStepStrong ss env pre post n) := by
   unfold MutStepStrong; infer_instance
 
 /-- executable form of `MutStepStrong` (the exons of `post` are computed once) -/
-def mutStepStrongB (ss : SymSet) (pl : Nat) (pre post : Ind) (n : Nat) : Bool :=
+def mutStepStrongB (ss : SymSet) (env : MepEnv) (pre post : Ind) (n : Nat) : Bool :=
   let ch := changedLoci pre post
   let ex := exons post
-  decide (MutStep ss pl pre post) && ch.all (fun l => ex.contains l) && decide (ch.length = n)
+  decide (MutStep ss env pre post) && ch.all (fun l => ex.contains l) && decide (ch.length = n)
 
 def OnePoint (frm to post : Ind) : Prop :=
   ∃ cut, cut < frm.rows ∧ (if 2 < frm.rows then 1 ≤ cut ∧ cut < frm.rows - 1 else cut = 1) ∧
@@ -483,14 +508,16 @@ abbrev Team := List Ind
 
 def TeamWF (ss : SymSet) (t : Team) : Prop := ∀ x ∈ t, WF ss x
 
-def teamRandom (ss : SymSet) (rows pl : Nat) (xo : Nat → Nat) (d : Nat → Nat → Nat → GDraw)
-    (n : Nat) : Team :=
-  (List.range n).map (fun k => randomInd ss rows pl (xo k) (d k))
+/-- `team(const problem &)`: `env.team.individuals` members, each `i_mep(problem)` -/
+def teamRandom (ss : SymSet) (env : MepEnv) (xo : Nat → Nat) (d : Nat → Nat → Nat → GDraw) : Team :=
+  (List.range env.teamSize).map (fun k => randomInd ss env (xo k) (d k))
 
-def teamMutation (ss : SymSet) (pl : Nat) (eqv : Gene → Gene → Bool)
+/-- `team::mutation(pgm, prb)`: every member OF THE TEAM (`t.length` = `individuals()`, not
+    `env.teamSize`) is mutated under `env` -/
+def teamMutation (ss : SymSet) (env : MepEnv) (eqv : Gene → Gene → Bool)
     (bern : Nat → Nat → Nat → Bool) (d : Nat → Nat → Nat → GDraw) (t : Team) : Team × Nat :=
   let r := (List.range t.length).map
-    (fun k => mutation ss pl eqv (bern k) (d k) (t.getD k default_ind))
+    (fun k => mutation ss env eqv (bern k) (d k) (t.getD k default_ind))
   (r.map (·.1), (r.map (·.2)).sum)
 where default_ind : Ind := ⟨0, 0, fun _ _ => default, ⟨0, 0⟩, 0, 0⟩
 
@@ -502,13 +529,13 @@ def teamCrossover (lhs rhs : Team) (d : Nat → XDraw) : Team :=
 def teamIncAge (t : Team) : Team :=
   (List.range t.length).map (fun k => incAge (t.getD k teamMutation.default_ind))
 
-def TeamRandomStep (ss : SymSet) (rows pl : Nat) (post : Team) : Prop :=
-  ∀ x ∈ post, RandomStep ss rows pl x
+def TeamRandomStep (ss : SymSet) (env : MepEnv) (post : Team) : Prop :=
+  post.length = env.teamSize ∧ ∀ x ∈ post, RandomStep ss env x
 
-def TeamMutStep (ss : SymSet) (pl : Nat) (pre post : Team) : Prop :=
+def TeamMutStep (ss : SymSet) (env : MepEnv) (pre post : Team) : Prop :=
   post.length = pre.length ∧
   ∀ k, k < pre.length →
-    MutStep ss pl (pre.getD k teamMutation.default_ind) (post.getD k teamMutation.default_ind)
+    MutStep ss env (pre.getD k teamMutation.default_ind) (post.getD k teamMutation.default_ind)
 
 def TeamCrossStep (lhs rhs post : Team) : Prop :=
   post.length = lhs.length ∧
@@ -539,9 +566,9 @@ instance (pre post : Ind) : Decidable (SameInd pre post) := by
 instance (pre post) : Decidable (TeamOfMembersStep pre post) := by
   unfold TeamOfMembersStep; infer_instance
 
-instance (ss rows pl post) : Decidable (TeamRandomStep ss rows pl post) := by
+instance (ss env post) : Decidable (TeamRandomStep ss env post) := by
   unfold TeamRandomStep; infer_instance
-instance (ss pl pre post) : Decidable (TeamMutStep ss pl pre post) := by
+instance (ss env pre post) : Decidable (TeamMutStep ss env pre post) := by
   unfold TeamMutStep; infer_instance
 instance (lhs rhs post) : Decidable (TeamCrossStep lhs rhs post) := by
   unfold TeamCrossStep; infer_instance
@@ -554,79 +581,93 @@ def Pointwise (frm to post : Ind) : Prop :=
     post.gene i c = frm.gene i c ∨ post.gene i c = to.gene i c
 
 
+/-- corresponding members of two teams have the same size (what `crossover(lhs[k], rhs[k])` expects) -/
+def SameSizes (lhs rhs : Team) : Prop :=
+  ∀ k, k < lhs.length →
+    (rhs.getD k teamMutation.default_ind).rows = (lhs.getD k teamMutation.default_ind).rows
+
 /-- individuals reachable from randomly created ones by any sequence of the public genetic
-    operations (each operation as the step relation the driver decides on real executions) -/
-inductive Reachable (ss : SymSet) (rows : Nat) : Ind → Prop
-  | random {pl : Nat} {post : Ind} : pl < rows → RandomStep ss rows pl post → Reachable ss rows post
-  | mutation {pl : Nat} {pre post : Ind} :
-      Reachable ss rows pre → pl < rows → MutStep ss pl pre post → Reachable ss rows post
+    operations (each operation as the step relation the driver decides on real executions).
+    Every step has ITS OWN environment: an individual is created under a valid one and may then be
+    mutated under ANY other (code length and patch length raised or lowered in between, valid or
+    not); individuals of different sizes coexist; `crossover` requires parents of the same size
+    (its `Expects`). -/
+inductive Reachable (ss : SymSet) : Ind → Prop
+  | random {env : MepEnv} {post : Ind} : env.Valid → RandomStep ss env post → Reachable ss post
+  | mutation {env : MepEnv} {pre post : Ind} :
+      Reachable ss pre → MutStep ss env pre post → Reachable ss post
   | crossover {lhs rhs post : Ind} :
-      Reachable ss rows lhs → Reachable ss rows rhs → CrossStep lhs rhs post → Reachable ss rows post
+      Reachable ss lhs → Reachable ss rhs → rhs.rows = lhs.rows → CrossStep lhs rhs post →
+      Reachable ss post
   | getBlock {pre post : Ind} {l : Locus} :
-      Reachable ss rows pre → Inside pre l → GetBlockStep pre l post → Reachable ss rows post
+      Reachable ss pre → Inside pre l → GetBlockStep pre l post → Reachable ss post
   | destroyBlock {pre post : Ind} {idx : Nat} :
-      Reachable ss rows pre → DestroyStep ss pre idx post → Reachable ss rows post
+      Reachable ss pre → DestroyStep ss pre idx post → Reachable ss post
   | replace {pre post : Ind} {l : Locus} {g : Gene} :
-      Reachable ss rows pre → Compatible ss pre l g → ReplaceStep pre l g post → Reachable ss rows post
-  | cse {pre post : Ind} : Reachable ss rows pre → CseStep pre post → Reachable ss rows post
-  | incAge {pre post : Ind} : Reachable ss rows pre → IncAgeStep pre post → Reachable ss rows post
+      Reachable ss pre → Compatible ss pre l g → ReplaceStep pre l g post → Reachable ss post
+  | cse {pre post : Ind} : Reachable ss pre → CseStep pre post → Reachable ss post
+  | incAge {pre post : Ind} : Reachable ss pre → IncAgeStep pre post → Reachable ss post
 
 
-/-- teams reachable from randomly created ones -/
-inductive TReachable (ss : SymSet) (rows : Nat) : Team → Prop
-  | random {pl : Nat} {post : Team} : pl < rows → TeamRandomStep ss rows pl post → TReachable ss rows post
-  | ofMembers {t : Team} : (∀ x ∈ t, Reachable ss rows x) → TReachable ss rows t
-  | mutation {pl : Nat} {pre post : Team} :
-      TReachable ss rows pre → pl < rows → TeamMutStep ss pl pre post → TReachable ss rows post
+/-- teams reachable from randomly created ones (members of a team may have different sizes:
+    `team(std::vector<T>)` takes any individuals) -/
+inductive TReachable (ss : SymSet) : Team → Prop
+  | random {env : MepEnv} {post : Team} : env.Valid → TeamRandomStep ss env post → TReachable ss post
+  | ofMembers {t : Team} : (∀ x ∈ t, Reachable ss x) → TReachable ss t
+  | mutation {env : MepEnv} {pre post : Team} :
+      TReachable ss pre → TeamMutStep ss env pre post → TReachable ss post
   | crossover {lhs rhs post : Team} :
-      TReachable ss rows lhs → TReachable ss rows rhs → rhs.length = lhs.length →
-      TeamCrossStep lhs rhs post → TReachable ss rows post
+      TReachable ss lhs → TReachable ss rhs → rhs.length = lhs.length → SameSizes lhs rhs →
+      TeamCrossStep lhs rhs post → TReachable ss post
   | incAge {pre post : Team} :
-      TReachable ss rows pre → TeamIncAgeStep pre post → TReachable ss rows post
+      TReachable ss pre → TeamIncAgeStep pre post → TReachable ss post
 
 
 /-- individuals produced by any finite sequence of the model operators, every draw being an
-    arbitrary value allowed by the contract of the random primitive that produces it -/
-inductive ReachableF (ss : SymSet) (rows : Nat) : Ind → Prop
-  | random {pl xo : Nat} {d : Nat → Nat → GDraw} : pl < rows → xo < 4 →
-      (∀ i, i < rows → ∀ c, c < ss.cats → DrawOK ss rows pl i c (d i c)) →
-      ReachableF ss rows (randomInd ss rows pl xo d)
-  | mutation {x : Ind} {pl : Nat} {eqv : Gene → Gene → Bool} {bern : Nat → Nat → Bool}
-      {d : Nat → Nat → GDraw} : ReachableF ss rows x → pl < rows →
-      (∀ i, i < x.rows → ∀ c, c < x.cols → DrawOK ss x.rows pl i c (d i c)) →
-      ReachableF ss rows (mutation ss pl eqv bern d x).1
-  | crossover {x y : Ind} {d : XDraw} : ReachableF ss rows x → ReachableF ss rows y →
-      XDrawOK (if d.b then y else x) d → ReachableF ss rows (crossover x y d)
-  | getBlock {x : Ind} {l : Locus} : ReachableF ss rows x → Inside x l →
-      ReachableF ss rows (getBlock x l)
-  | destroyBlock {x : Ind} {idx : Nat} {d : Nat → GDraw} : ReachableF ss rows x →
-      (∀ c, c < x.cols → TDrawOK ss c (d c)) → ReachableF ss rows (destroyBlock ss x idx d)
-  | replace {x : Ind} {l : Locus} {g : Gene} : ReachableF ss rows x → Compatible ss x l g →
-      ReachableF ss rows (replace x l g)
-  | cse {x : Ind} : ReachableF ss rows x → ReachableF ss rows (cse x)
-  | incAge {x : Ind} : ReachableF ss rows x → ReachableF ss rows (incAge x)
+    arbitrary value allowed by the contract of the random primitive that produces it, every
+    operator call with an environment of its own (arbitrary for `mutation`) -/
+inductive ReachableF (ss : SymSet) : Ind → Prop
+  | random {env : MepEnv} {xo : Nat} {d : Nat → Nat → GDraw} : env.Valid → xo < 4 →
+      (∀ i, i < env.codeLength → ∀ c, c < ss.cats →
+        DrawOK ss env.codeLength env.patchLength i c (d i c)) →
+      ReachableF ss (randomInd ss env xo d)
+  | mutation {x : Ind} {env : MepEnv} {eqv : Gene → Gene → Bool} {bern : Nat → Nat → Bool}
+      {d : Nat → Nat → GDraw} : ReachableF ss x →
+      (∀ i, i < x.rows → ∀ c, c < x.cols → DrawOK ss x.rows env.patchLength i c (d i c)) →
+      ReachableF ss (mutation ss env eqv bern d x).1
+  | crossover {x y : Ind} {d : XDraw} : ReachableF ss x → ReachableF ss y → y.rows = x.rows →
+      XDrawOK (if d.b then y else x) d → ReachableF ss (crossover x y d)
+  | getBlock {x : Ind} {l : Locus} : ReachableF ss x → Inside x l →
+      ReachableF ss (getBlock x l)
+  | destroyBlock {x : Ind} {idx : Nat} {d : Nat → GDraw} : ReachableF ss x →
+      (∀ c, c < x.cols → TDrawOK ss c (d c)) → ReachableF ss (destroyBlock ss x idx d)
+  | replace {x : Ind} {l : Locus} {g : Gene} : ReachableF ss x → Compatible ss x l g →
+      ReachableF ss (replace x l g)
+  | cse {x : Ind} : ReachableF ss x → ReachableF ss (cse x)
+  | incAge {x : Ind} : ReachableF ss x → ReachableF ss (incAge x)
 
 
 /-- teams produced by any finite sequence of the model team operators -/
-inductive TReachableF (ss : SymSet) (rows : Nat) : Team → Prop
-  | random {pl n : Nat} {xo : Nat → Nat} {d : Nat → Nat → Nat → GDraw} : pl < rows →
-      (∀ k, k < n → xo k < 4 ∧
-        ∀ i, i < rows → ∀ c, c < ss.cats → DrawOK ss rows pl i c (d k i c)) →
-      TReachableF ss rows (teamRandom ss rows pl xo d n)
-  | ofMembers {t : Team} : (∀ x ∈ t, ReachableF ss rows x) → TReachableF ss rows t
-  | mutation {t : Team} {pl : Nat} {eqv : Gene → Gene → Bool} {bern : Nat → Nat → Nat → Bool}
-      {d : Nat → Nat → Nat → GDraw} : TReachableF ss rows t → pl < rows →
+inductive TReachableF (ss : SymSet) : Team → Prop
+  | random {env : MepEnv} {xo : Nat → Nat} {d : Nat → Nat → Nat → GDraw} : env.Valid →
+      (∀ k, k < env.teamSize → xo k < 4 ∧
+        ∀ i, i < env.codeLength → ∀ c, c < ss.cats →
+          DrawOK ss env.codeLength env.patchLength i c (d k i c)) →
+      TReachableF ss (teamRandom ss env xo d)
+  | ofMembers {t : Team} : (∀ x ∈ t, ReachableF ss x) → TReachableF ss t
+  | mutation {t : Team} {env : MepEnv} {eqv : Gene → Gene → Bool} {bern : Nat → Nat → Nat → Bool}
+      {d : Nat → Nat → Nat → GDraw} : TReachableF ss t →
       (∀ k, k < t.length → ∀ i, i < (t.getD k teamMutation.default_ind).rows →
         ∀ c, c < (t.getD k teamMutation.default_ind).cols →
-          DrawOK ss (t.getD k teamMutation.default_ind).rows pl i c (d k i c)) →
-      TReachableF ss rows (teamMutation ss pl eqv bern d t).1
-  | crossover {lhs rhs : Team} {d : Nat → XDraw} : TReachableF ss rows lhs →
-      TReachableF ss rows rhs → rhs.length = lhs.length →
+          DrawOK ss (t.getD k teamMutation.default_ind).rows env.patchLength i c (d k i c)) →
+      TReachableF ss (teamMutation ss env eqv bern d t).1
+  | crossover {lhs rhs : Team} {d : Nat → XDraw} : TReachableF ss lhs →
+      TReachableF ss rhs → rhs.length = lhs.length → SameSizes lhs rhs →
       (∀ k, k < lhs.length →
         XDrawOK (if (d k).b then rhs.getD k teamMutation.default_ind
                  else lhs.getD k teamMutation.default_ind) (d k)) →
-      TReachableF ss rows (teamCrossover lhs rhs d)
-  | incAge {t : Team} : TReachableF ss rows t → TReachableF ss rows (teamIncAge t)
+      TReachableF ss (teamCrossover lhs rhs d)
+  | incAge {t : Team} : TReachableF ss t → TReachableF ss (teamIncAge t)
 
 
 end Vita.C02
